@@ -6,6 +6,7 @@ connection (no-op notifications).  Everything is single-threaded; no thread, soc
 """
 import warnings
 from concurrent.futures import Future
+import threading
 from threading import RLock
 
 from vf.impl import import_cluster
@@ -162,6 +163,22 @@ class Harness(object):
                 hid = H.ep_index[endpoint]
                 control = bool(kwargs.get('is_control_connection'))
                 o = H.outcome.get(hid, 'ok')
+                pr = H.probe_by_thread.get(threading.get_ident())
+                if pr is not None and not pr['entered']:
+                    # split reconnection attempt: the connect is now "in flight"; the history decides what happens
+                    # meanwhile (main thread), then releases the gate with the outcome.  Strict hand-off: only one
+                    # of the two threads ever runs.
+                    pr['entered'] = True
+                    H.log.append(('A', 'attempt', hid))
+                    H.attempts.append((hid, 'data', 'split', H.removed[hid]))
+                    pr['started'].set()
+                    pr['gate'].wait()
+                    o = pr['outcome']
+                    if o == 'fail':
+                        raise connection.ConnectionException('scripted connect failure', endpoint=endpoint)
+                    if o == 'auth':
+                        raise cassandra.AuthenticationFailed('scripted auth failure')
+                    return cls(hid, control)
                 H.attempts.append((hid, 'control' if control else 'data', o, H.removed[hid]))
                 if H.in_recon:
                     H.log.append(('A', 'attempt', hid))
@@ -222,6 +239,8 @@ class Harness(object):
 
         self.FakeConn = FakeConn
         self.after_connect = None
+        self.probes = []            # in-flight split reconnection attempts
+        self.probe_by_thread = {}
         self.req_timers = []
         self.in_recon = False
         self.discounted_nonup = set()     # hosts for which an on_down was ignored (open pool) while not marked up
@@ -348,6 +367,12 @@ class Harness(object):
 
     def close(self):
         """leave nothing behind"""
+        for pr in list(self.probes):
+            pr['handler'].cancel()
+            pr['outcome'] = 'fail'
+            pr['gate'].set()
+            pr['thread'].join()
+        self.probes[:] = []
         _CURRENT[0] = None
         for s in self.sessions:
             s.is_shutdown = True       # keeps Session.__del__ from doing anything
@@ -405,6 +430,7 @@ class Harness(object):
         return {'hosts': hs,
                 'queue': [self.task_desc(t) for t in self.executor.queue],
                 'timers': [self.timer_desc(t) for t in self.scheduler.timers],
+                'probes': [self.recons.index(pr['handler']) for pr in self.probes],
                 'recons': [(self.hid(r.host), int(bool(r._cancelled))) for r in self.recons],
                 'log': list(self.log),
                 'opened': len(self.conns), 'closed': [c.cid for c in self.conns if c.is_closed]}
@@ -420,6 +446,10 @@ class Harness(object):
         for k, t in enumerate(self.scheduler.timers):
             for o in ('ok', 'fail', 'auth'):
                 ev.append(('recon', k, o))
+            ev.append(('pstart', k))
+        for j, pr in enumerate(self.probes):
+            for o in ('ok', 'fail', 'auth'):
+                ev.append(('pfinish', j, o))
         for k, t in enumerate(self.executor.queue):
             if self.task_desc(t)[0] == 'addpool':
                 for o in ('ok', 'fail', 'auth'):
@@ -436,8 +466,10 @@ class Harness(object):
             return self.hosts[ev[1]] is None
         if kind == 'rem':
             return self.hosts[ev[1]] is not None and not self.removed[ev[1]]
-        if kind == 'recon':
+        if kind in ('recon', 'pstart'):
             return ev[1] < len(self.scheduler.timers)
+        if kind == 'pfinish':
+            return ev[1] < len(self.probes)
         if kind == 'run':
             return ev[1] < len(self.executor.queue)
         return False
@@ -477,6 +509,32 @@ class Harness(object):
                 pass                        # _Scheduler._log_if_failed
             finally:
                 self.in_recon = False
+        elif kind == 'pstart':
+            fn, args, kwargs = self.scheduler.timers.pop(ev[1])
+            pr = {'handler': fn.__self__, 'entered': False, 'started': threading.Event(), 'gate': threading.Event(), 'outcome': None}
+
+            def work():
+                self.probe_by_thread[threading.get_ident()] = pr
+                try:
+                    fn(*args, **kwargs)
+                except Exception:
+                    pass
+                finally:
+                    pr['done'] = True
+                    pr['started'].set()
+            pr['thread'] = t = threading.Thread(target=work)
+            t.daemon = True
+            t.start()
+            pr['started'].wait()
+            if pr.get('done'):          # cancelled before starting: run() returned at once
+                t.join()
+            else:
+                self.probes.append(pr)
+        elif kind == 'pfinish':
+            pr = self.probes.pop(ev[1])
+            pr['outcome'] = ev[2]
+            pr['gate'].set()
+            pr['thread'].join()
         elif kind == 'run':
             d = self.task_desc(self.executor.queue[ev[1]])
             if d[0] == 'addpool':
